@@ -235,6 +235,8 @@ def main(argv):
       else:
         unk += 1
         exhaustive = False
+        print('inconclusive: %s %s %s paths=%d wall=%.0fs' % (hname, r['pins'], r.get('messages'),
+                                                               r['paths'], r.get('wall_s', 0)))
     part_summ.append(dict(harness=hname, partitions=len(ph['results']),
                           confirmed=conf, inconclusive=unk,
                           bounds=ph['h'].get('bounds', ''),
